@@ -29,6 +29,7 @@ func (g *gen) next() (int, bool) {
 func run(c *fw.Ctx) {
 	g := &gen{c: c}
 	g.matrix()
+	g.uploads()
 	g.valid()
 	g.placements()
 	g.truncation()
@@ -36,7 +37,7 @@ func run(c *fw.Ctx) {
 	g.mutations()
 	g.headers()
 	g.oversized()
-	c.Note("exhaustive_parts", "matrix: status 100..599 x 7 body kinds x 23 methods (+ Create early answer x 3 kinds); "+
+	c.Note("exhaustive_parts", "matrix: status 100..599 x 7 body kinds x 23 methods (+ Create early answer x 3 kinds); uploads: full product of answer time x size x writes x stop-on-error x statuses; "+
 		"placements: all assignments of {200,204,102,302,403,404,500,507}; truncation: every prefix of the chosen documents and objects")
 }
 
@@ -315,9 +316,67 @@ func (g *gen) matrix() {
 			cs.Header = k.header
 			cs.setBody(k.body)
 			cs.Exp = matrixExpect(m, status, k, Entry{}, k.body)
-			cs.Class = matrixClass(m, status, k) + " (answer before upload)"
+			cs.Class = matrixClass(m, status, k) + " (answer before upload complete)"
 			cs.DKey = m.Name + "|http " + httpClass(status) + " + " + k.name + " (answer before upload)"
 			runCase(g.c, cs)
+		}
+	}
+}
+
+// uploads scripts both sides of Create: when the fake answers (before reading
+// the upload, after k bytes, after all of it) x how the caller writes (size,
+// number of Write calls, Close after the first Write error or after ignoring
+// errors). Whatever happens to the Writes, Close must return, with an error
+// exactly when the answer was not 2xx.
+func (g *gen) uploads() {
+	m := methodByName("webdav.Create")
+	statuses := []int{200, 201, 204, 207, 100, 302, 403, 404, 500, 507}
+	if g.c.Thorough() {
+		for s := 101; s < 600; s += 13 {
+			statuses = append(statuses, s)
+		}
+	}
+	kinds := g.matrixKinds(m, 4)
+	for _, status := range statuses {
+		for _, size := range []int{0, 100, 1 << 20} {
+			for _, writes := range []int{0, 1, 3, 256} {
+				if (writes == 0) != (size == 0) && writes != 1 {
+					continue // no Write at all only for the empty upload; one empty Write too
+				}
+				for _, when := range []string{"before", "after1", "afterhalf", "afterall"} {
+					var after int64
+					switch when {
+					case "after1":
+						after = 1
+					case "afterhalf":
+						after = int64(size / 2)
+					}
+					if when != "before" && when != "afterall" && after == 0 {
+						continue
+					}
+					for _, stop := range []bool{false, true} {
+						idx, mine := g.next()
+						if !mine {
+							continue
+						}
+						k := &kinds[[]int{0, 1, 2}[idx%3]]
+						cs := g.newCase(m, "uploads", k.name, status)
+						cs.Header = k.header
+						cs.setBody(k.body)
+						cs.Early = when == "before"
+						cs.AnswerAfter = after
+						cs.Up = &Upload{Size: size, Writes: writes, StopOnErr: stop}
+						cs.Exp = matrixExpect(m, status, k, Entry{}, k.body)
+						cs.Class = matrixClass(m, status, k)
+						if when != "afterall" {
+							cs.Class += " (answer before upload complete)"
+						}
+						cs.DKey = fmt.Sprintf("%s|http %s|answer=%s|size=%d|writes=%d|stop=%v", m.Name, httpClass(status), when, size, writes, stop)
+						g.c.Observe("uploads", fmt.Sprintf("answer %s, %d bytes in %d writes", when, size, writes), 1)
+						runCase(g.c, cs)
+					}
+				}
+			}
 		}
 	}
 }
